@@ -198,6 +198,9 @@ func c16GenQueue(r *verifh.Rng) []verifh.Section {
 		if i == 0 {
 			size = 0 // outside the property: Put panics (index out of range), state unchanged
 		}
+		if i == 1 {
+			size = -2 // NewQueue(negative): make panics, no queue exists
+		}
 		var ops []string
 		next := 1
 		nops := r.Range(5, verifh.Scale(80, 200))
@@ -263,9 +266,15 @@ func c16GenQueue(r *verifh.Rng) []verifh.Section {
 }
 
 func c16StartQueue(cfg verifh.Cfg) (func(op []string) string, func()) {
-	q := NewQueue(cfg.Int("size", 1))
+	var q *Queue
+	func() {
+		defer func() { recover() }()
+		q = NewQueue(cfg.Int("size", 1))
+	}()
 	return func(op []string) string {
 		switch {
+		case q == nil:
+			return "PANIC-new"
 		case len(op) == 2 && op[0] == "put":
 			q.Put(c16Val(verifh.Atoi(op[1])))
 			return "ok"
